@@ -582,6 +582,24 @@ def r9_polars_default_is_literal(ctx):
                                         guarded = True
                                     par = getattr(par, "_parent", None)
                                 if not guarded:
+                                    # `v = schema.default` followed by `if not isinstance(v, pl.Expr): v = pl.lit(...)`: what is
+                                    # left of the bare value at the sink is an expression
+                                    asg = getattr(x, "_parent", None)
+                                    if isinstance(asg, ast.Assign) and len(asg.targets) == 1 and isinstance(asg.targets[0], ast.Name):
+                                        v = asg.targets[0].id
+                                        for iff in walk_no_nested(f.node):
+                                            if not isinstance(iff, ast.If):
+                                                continue
+                                            t, neg = iff.test, False
+                                            while isinstance(t, ast.UnaryOp) and isinstance(t.op, ast.Not):
+                                                t, neg = t.operand, not neg
+                                            if isinstance(t, ast.Call) and callee_last(t) == "isinstance" and len(t.args) == 2 and txt(t.args[0]) == v and "Expr" in txt(t.args[1]):
+                                                branch = iff.body if neg else iff.orelse
+                                                if any(isinstance(a, ast.Assign) and any(isinstance(tt, ast.Name) and tt.id == v for tt in a.targets)
+                                                       and isinstance(a.value, ast.Call) and callee_last(a.value) == "lit" for a in branch) \
+                                                        and iff.lineno > asg.lineno:
+                                                    guarded = True
+                                if not guarded:
                                     bare.append(x)
                 if not exprs:
                     continue
